@@ -251,7 +251,11 @@ def run(rep, tier, seed):
                 'multi-octet numbers), lengths 127/128/255/256/65535/65536, integers at +-2^(8k-1); non-trivial = depth>=1 or tagged')
     rep.assumptions = ['the X.690 transcription in lean/Asn1/X690.lean is correct (short, readable)', 'text codecs trusted',
                        'decimal REAL excluded']
-    from harness import sexp_types
+    from harness import sexp_types, kernels
+    # the octet kernels of the encoder are translated from the source on every run (gen/py2lean.py); the theorems
+    # source_*_is_x690 are about those translations; the translation itself is compared with the code here
+    kernels.obligations(rep, ['encodeTag', 'encodeLength', 'toBytes', 'oidEncode'])
+    kernels.check(rep, drv, seed, 150 if tier == 'quick' else 4000)
     real_bases(rep, drv, tier)
     for ts, vs in CORPUS:
         t = sexp_types.ty_of_sexp(gen.parse_sexps(ts)[0])
